@@ -41,6 +41,7 @@ type Clause struct {
 }
 
 type LoopContract struct {
+	Continues  []Clause // must hold whenever control takes the loop's back edge (locals of the body in scope)
 	Invariants []Clause
 	Decreases  *Clause
 }
@@ -62,6 +63,7 @@ type FuncContract struct {
 	Props       []string
 	Trusted     bool
 	Inline      bool
+	Opaque      bool // never inlined, no contract: calls havoc memory and results (listed as unspecified callee)
 	Pure        bool
 	Alloc       *Clause
 	Decreases   *Clause
@@ -266,6 +268,8 @@ func (fc *FuncContract) addClause(word, rest, where string) error {
 		fc.Trusted = true
 	case "inline":
 		fc.Inline = true
+	case "opaque":
+		fc.Opaque = true
 	case "alloc":
 		c, err := parseLabeled("alloc", rest, where)
 		if err != nil {
@@ -303,6 +307,12 @@ func (fc *FuncContract) addClause(word, rest, where string) error {
 				return err
 			}
 			lc.Decreases = &c
+		case "continues":
+			c, err := parseLabeled("continues", rest3, where)
+			if err != nil {
+				return err
+			}
+			lc.Continues = append(lc.Continues, c)
 		default:
 			return fmt.Errorf("unknown loop clause %q", kind)
 		}
